@@ -83,7 +83,7 @@ def hazard_pointer_rules(ctx):
     present(ctx, "HP.block-init", CB + "initialize_block", call("initialize_next_block"), label="chains-to-next-block")
     present(ctx, "HP.block-init", CB + "initialize", call("initialize_block"), label="initialize-rebuilds")
     # C18.c exhaustion is reported, slots are recycled
-    guarded(ctx, "HP.slots", CB + "alloc_hazard_pointer", call("need_more_hps"), {"k": "bin", "pred": lambda fn, nid: fn.nodes[nid].get("op") == "==" and "nullptr" in fn.expr(nid) and flow.has_src(fn, nid, "param#0"), "desc": "hint == nullptr"}, True,
+    guarded(ctx, "HP.slots", CB + "alloc_hazard_pointer", call("need_more_hps"), {"want": flow.null_want(lambda f, x: flow.has_src(f, x, "param#0")), "desc": "hint == nullptr"}, True,
             label="need_more|null")
     present(ctx, "HP.slots", CB + "alloc_hazard_pointer", call("get_link"), label="pops-free-list")
     _throws_only(ctx, "HP.slots", R + "detail::static_hp_thread_control_block::need_more_hps", "bad_hazard_pointer_alloc")
@@ -248,7 +248,7 @@ def hazard_eras_rules(ctx):
             ok2 = any(fn.before(a, o) or fn.before(o, a) for o in others)
             ctx.check(ok2, "HE.exception-safety", CB + "alloc_hazard_era#cache-fields-paired", "cache fields updated together", "last_era and last_hazard_era are not updated on the same path", fn.where(a), fn=fn)
     # slots
-    guarded(ctx, "HE.slots", CB + "alloc_hazard_era", call("need_more_hes"), {"k": "bin", "pred": lambda fn, nid: fn.nodes[nid].get("op") == "==" and "nullptr" in fn.expr(nid) and flow.has_src(fn, nid, "param#0"), "desc": "hint == nullptr"}, True,
+    guarded(ctx, "HE.slots", CB + "alloc_hazard_era", call("need_more_hes"), {"want": flow.null_want(lambda f, x: flow.has_src(f, x, "param#0")), "desc": "hint == nullptr"}, True,
             label="need_more|null")
     chain(ctx, "HE.slots", CB + "alloc_hazard_era", [call("get_link"), call("set_era"), call("hazard_era::add_guard", pred=lambda fn, nid: "last_hazard_era" not in fn.expr(nid))], mode="dom", label="link<era<guard")
     _throws_only(ctx, "HE.slots", R + "detail::static_he_thread_control_block::need_more_hes", "bad_hazard_era_alloc")
@@ -612,11 +612,20 @@ def lfrc_rules(ctx):
     # return paths of acquire: only via q == reload (or null)
     for fn in flow._shapes(ctx, L + "guard_ptr::acquire_if_equal"):
         rets = [e for e in flow.find(fn, {"k": "return"}) if fn.kids(e) and fn.nodes[fn.kids(e)[0]].get("v") == 1]
-        eqp = lambda f, nid: f.nodes[nid]["k"] == "call" and f.nodes[nid].get("callee", "").endswith("operator==") and flow.has_src(f, nid, "load:param#0")
-        nullq = lambda f, nid: f.nodes[nid]["k"] == "bin" and f.nodes[nid]["op"] == "==" and "nullptr" in f.expr(nid) and flow.has_src(f, nid, "load:param#0")
+        is_src = lambda f, x: flow.has_src(f, x, "load:param#0")
+        _both = flow.cmp_want(is_src, is_src)
+
+        def eqp(f, nid):
+            # the re-validation: the first load of the source compared with a SECOND load of it (two different load events)
+            w = _both(f, nid)
+            if w is None:
+                return None
+            c = flow.eq_cmp(f, nid)
+            return w if flow.src_loads(f, c[1]) != flow.src_loads(f, c[2]) else None
+        nullq = flow.null_want(is_src)                                                # q.get() == nullptr
         okall = True
         for r in rets:
-            ok, p, n = flow.only_via(fn, r, lambda f, nid: eqp(f, nid) or nullq(f, nid), True)
+            ok, p, n = flow.only_via_want(fn, r, lambda f, nid: nullq(f, nid) if nullq(f, nid) is not None else eqp(f, nid))
             okall = okall and ok and n > 0
         ctx.check(okall and bool(rets), "LFRC.validate-after-protect", L + "guard_ptr::acquire_if_equal#true|revalidated", "'return true' only after re-validation (or null)",
                   "'return true' reachable without the re-validation of the source", fn.where(), fn=fn)
